@@ -29,7 +29,11 @@ def efun(x):
     Returns:
         float: x/[exp(x)-1]
     """
-    return x / (save_exp(x) - 1.0)
+    # `x / (exp(x) - 1)` is 0/0 at x=0. Use its Taylor expansion around zero there.
+    # The inner `where` keeps the unused branch (and its gradient) finite.
+    is_small = jnp.abs(x) < 1e-6
+    x_safe = jnp.where(is_small, 1.0, x)
+    return jnp.where(is_small, 1.0 - x / 2.0, x_safe / (save_exp(x_safe) - 1.0))
 
 
 class Leak(Channel):
